@@ -59,6 +59,8 @@ func Spec() *run.Spec {
 			"offset_decades":             6,
 			"insertion_orders":           5000,
 			"oracle_selftest_passed":     1,
+			"earlier_results_reread":     20000,
+			"earlier_results_rejudged":   2000,
 			"plain_calls_right_after_a_cutting_constrained_call": 300,
 			"large_sets":                       6,
 			"large_required_triangles_present": 100,
@@ -76,6 +78,12 @@ func Spec() *run.Spec {
 // triangulate runs polyform on P and returns the index list after checking that
 // vertex i of the result is input point i.
 func triangulate(res *run.Result, P []pt, spare bool, inClass string) ([]int, bool) {
+	_, idx, ok := triangulateKeep(res, P, spare, inClass)
+	return idx, ok
+}
+
+// triangulateKeep also hands back the mesh itself so that the caller can keep it alive.
+func triangulateKeep(res *run.Result, P []pt, spare bool, inClass string) (modeling.Mesh, []int, bool) {
 	in := make([]vector2.Float64, len(P), len(P)+map[bool]int{true: 8, false: 0}[spare])
 	for i, p := range P {
 		in[i] = vector2.New(p.x, p.y)
@@ -83,7 +91,7 @@ func triangulate(res *run.Result, P []pt, spare bool, inClass string) ([]int, bo
 	var m modeling.Mesh
 	if p := run.Try(func() { m = triangulation.BowyerWatson(in) }); p != nil {
 		res.Violate("runtime-panic", "triangulation.BowyerWatson", inClass, p.Value+" at "+p.Site, map[string]any{"points": xy(P, 60)})
-		return nil, false
+		return m, nil, false
 	}
 	var idx []int
 	ok := true
@@ -119,9 +127,9 @@ func triangulate(res *run.Result, P []pt, spare bool, inClass string) ([]int, bo
 		}
 	}); p != nil {
 		res.Violate("runtime-panic", "triangulation.BowyerWatson result", inClass, p.Value+" at "+p.Site, nil)
-		return nil, false
+		return m, nil, false
 	}
-	return idx, ok
+	return m, idx, ok
 }
 
 func xy(P []pt, max int) [][2]float64 {
@@ -231,13 +239,15 @@ func setCase(c *run.Ctx) run.Result {
 	res.Count("delaunay_triangles_reference", int64(len(dt)))
 
 	r := c.SubRng(7)
-	idx1, ok1 := triangulate(&res, P, r.Intn(3) == 0, w.Class)
+	var keep keeper
+	m1, idx1, ok1 := triangulateKeep(&res, P, r.Intn(3) == 0, w.Class)
 	var st1, st2 outputStats
 	if ok1 {
 		var fs []finding
 		fs, st1 = checkOutput(P, idx1, dt, hull2)
 		report(&res, fs, P, w, nil, "as generated")
 		account(&res, st1)
+		keep.add(&res, m1, "call 1 (points as generated)", func(idx []int) []finding { fs, _ := checkOutput(P, idx, dt, hull2); return fs })
 	}
 	// the same points in another insertion order
 	perm := r.Perm(n)
@@ -245,8 +255,20 @@ func setCase(c *run.Ctx) run.Result {
 	for i, j := range perm {
 		P2[i] = P[j]
 	}
-	idx2, ok2 := triangulate(&res, P2, r.Intn(3) == 0, w.Class+"/permuted")
+	m2, idx2, ok2 := triangulateKeep(&res, P2, r.Intn(3) == 0, w.Class+"/permuted")
+	unperm := func(idx []int) []int {
+		out := make([]int, len(idx))
+		for i, v := range idx {
+			if v < 0 || v >= n {
+				return idx
+			}
+			out[i] = perm[v]
+		}
+		return out
+	}
 	if ok2 {
+		keep.recheck(&res, "call 2 (the same points permuted)", 1, 0, r)
+		keep.add(&res, m2, "call 2 (the same points permuted)", func(idx []int) []finding { fs, _ := checkOutput(P, unperm(idx), dt, hull2); return fs })
 		mapped := make([]int, len(idx2))
 		bad := false
 		for i, v := range idx2 {
@@ -265,6 +287,12 @@ func setCase(c *run.Ctx) run.Result {
 		account(&res, st2)
 		if ok1 && !sameTriangles(idx1, mapped) {
 			res.Count("permutation_changed_the_triangle_set", 1)
+		}
+	}
+	// a third, smaller call (a subset of a set in general position is in general position), then every earlier mesh again
+	if n >= 6 && len(res.Violations) == 0 {
+		if _, _, ok3 := triangulateKeep(&res, P[:3+r.Intn(n-3)], false, w.Class+"/subset"); ok3 {
+			keep.recheck(&res, "call 3 (a smaller subset of the points)", 2, 1, r)
 		}
 	}
 	res.Nontrivial = n >= 4 && ok1 && ok2 && st1.triangles > 0 && st2.triangles > 0 && st1.requiredPresent > 0 && st2.requiredPresent > 0
@@ -316,6 +344,8 @@ func orderCase(c *run.Ctx) run.Result {
 		}
 	}
 	distinctOutputs := map[string]bool{}
+	var keep keeper
+	rr := c.SubRng(9)
 	perm := make([]int, n)
 	for i := range perm {
 		perm[i] = i
@@ -333,11 +363,17 @@ func orderCase(c *run.Ctx) run.Result {
 			for i, j := range perm {
 				P2[i] = P[j]
 			}
-			idx, ok := triangulate(&res, P2, false, w.Class+"/order")
+			mk, idx, ok := triangulateKeep(&res, P2, false, w.Class+"/order")
 			if !ok {
 				allOK = false
 				return
 			}
+			// the meshes of all earlier orders stay alive; after each call the most recent ones are read again
+			if len(keep.all) > 0 {
+				rest := keeper{all: keep.all[imax(0, len(keep.all)-2):]}
+				rest.recheck(&res, "the call with order "+fmt.Sprint(perm), 2, 0, rr)
+			}
+			keep.add(&res, mk, "the call with order "+fmt.Sprint(perm), nil)
 			mapped := make([]int, len(idx))
 			for i, v := range idx {
 				if v < 0 || v >= n {
@@ -362,6 +398,7 @@ func orderCase(c *run.Ctx) run.Result {
 		}
 	}
 	visit(0)
+	keep.recheck(&res, "the last call of the case", len(keep.all), 0, rr)
 	res.Count("insertion_orders", int64(orders))
 	if len(distinctOutputs) > 1 {
 		res.Count("sets_whose_output_depends_on_the_order", 1)
